@@ -335,6 +335,24 @@ class Translator:
                                 known[t.get_id()] = 1 - ci
         return known
 
+    def opaque_tables(self, m):
+        out = {}
+        for name, spec in self.cset.specs.items():
+            if not spec.opaque or name not in self._decls:
+                continue
+            try:
+                fi = m[self._decls[name]]
+                if fi is None:
+                    continue
+                ent = []
+                for i in range(fi.num_entries()):
+                    e = fi.entry(i)
+                    ent.append([[term_to_py(e.arg_value(j)) for j in range(e.num_args())], term_to_py(e.value())])
+                out[name] = dict(entries=ent, default=term_to_py(fi.else_value()))
+            except Exception:      # noqa
+                pass
+        return out
+
     def refine_known_ctors(self, forms):
         """pc says is_C(t): rewrite t to C(acc_1(t), ...) so that definitional unfolding collapses."""
         U = self.U
@@ -400,7 +418,9 @@ class Translator:
             return 'discharged', 'z3', ms, None, '', size
         if r == z3.sat:
             m = s.model()
-            model = {}
+            model = {'@funcs': self.opaque_tables(m), '@consts': {n: term_to_py(m.eval(c, model_completion=True))
+                                                                 for n, c in self.U.consts.items()
+                                                                 if z3.is_const(c) and c.decl().kind() == z3.Z3_OP_UNINTERPRETED}}
             for k, v in ob.inputs.items():
                 try:
                     model[k] = model_value(m, v)
@@ -409,7 +429,11 @@ class Translator:
             return 'refuted', 'z3', ms, model, '', size
         reason = s.reason_unknown()
         if use_cvc5:
-            st, why = run_cvc5(s.to_smt2(), timeout_ms * 3)
+            import re as _re
+            smt = s.to_smt2()
+            sorts = _re.findall(r'^\(declare-sort [^\n]*\)\s*$', smt, flags=_re.M)
+            smt = _re.sub(r'^\(declare-sort [^\n]*\)\s*$', '', smt, flags=_re.M)   # z3 prints them after the datatypes
+            st, why = run_cvc5('\n'.join(x.strip() for x in sorts) + '\n' + smt, timeout_ms * 3)
             ms = (time.time() - t0) * 1000
             if st == 'unsat':
                 return 'discharged', 'cvc5', ms, None, '', size
@@ -420,6 +444,8 @@ class Translator:
 
 
 def model_value(m, v):
+    if isinstance(v, dict):
+        return {k: model_value(m, x) for k, x in v.items()}
     if isinstance(v, tuple):
         return [model_value(m, x) for x in v]
     if is_z3(v):
